@@ -701,7 +701,14 @@ func Intended(s *Spec) Summary {
 					if sgm.Var != "" {
 						t := "STRING"
 						if sgm.VarT != nil {
-							t = sgm.VarT.Canon()
+							vt := *sgm.VarT
+							if len(vt.RefApp) > 0 {
+								// a path variable typed App.Type is recorded as the path [App, Type] (documented in
+								// ExitHttp_path_var_with_type): the application part becomes part of the path
+								vt.Ref = append(append([]string{}, vt.RefApp...), vt.Ref...)
+								vt.RefApp = nil
+							}
+							t = vt.Canon()
 						}
 						add("ep %s urlparam %d %s %s", en, i, sgm.Var, t)
 						i++
